@@ -60,7 +60,7 @@ CLASSES = [object, type, abc.ABCMeta, NoneType, bool, int, float, str, bytes, tu
            collections.abc.Sequence, collections.abc.Iterable, collections.abc.Collection, collections.abc.Container,
            collections.abc.Set, collections.abc.MutableSet, collections.abc.MutableSequence, collections.abc.Mapping,
            collections.abc.MutableMapping, collections.abc.Iterator, GeneratorType, ListIterator,
-           P, C1, C2, G, U, MI, L, TS, Pdup, NT1, NT2, NT3, DC, Text, Counter, collections.Counter]
+           P, C1, C2, G, U, MI, L, TS, Pdup, NT1, NT2, NT3, DC, Text, Counter, collections.Counter, map, filter]
 IDX = {c: i for i, c in enumerate(CLASSES)}
 NAMES = {}
 
@@ -268,19 +268,27 @@ def hashable(o):
         return False
 
 
+def _ident(x): return x
+def _true(x): return True
+
+
 def build_val(t):
     k = t[0]
     if k == 'lit': return lit_obj(t[1])
     if k == 'inst':
         c = CLASSES[t[1]]
-        if c in (type, abc.ABCMeta, GeneratorType, ListIterator) or c.__module__ == 'collections.abc':
+        if c in (type, abc.ABCMeta, GeneratorType, ListIterator, map, filter) or c.__module__ == 'collections.abc':
             raise TypeError('not instantiable')
         return c()
     if k == 'clsobj': return CLASSES[t[1]]
     if k == 'ntup': return CLASSES[t[1]](*[build_val(x) for x in t[3]])
     if k == 'iterator':
         items = [build_val(x) for x in t[2]]
-        return iter(items) if CLASSES[t[1]] is ListIterator else (x for x in items)
+        c = CLASSES[t[1]]
+        if c is ListIterator: return iter(items)
+        if c is map: return map(_ident, items)            # composite one-shot iterators: a shallow copy shares the inner iterator
+        if c is filter: return filter(_true, items)
+        return (x for x in items)
     if k in ('coll', 'tup'):
         items = [build_val(x) for x in t[2]]
         c = CLASSES[t[1]]
@@ -432,7 +440,7 @@ def gen_any(r, d):
     if k == 'inst': return inst_of(r, r.choice(USER + [Pdup, DC]))
     if k == 'cls': return ["clsobj", IDX[r.choice([int, str, bool, P, C1, U, list, MI])]]
     if k == 'nt': return inst_of(r, r.choice([NT1, NT2, NT3]))
-    if k == 'iter': return ["iterator", IDX[r.choice([GeneratorType, ListIterator])], [gen_any(r, 0) for _ in range(r.randint(0, 2))]]
+    if k == 'iter': return ["iterator", IDX[r.choice([GeneratorType, ListIterator, map, filter])], [gen_any(r, 0) for _ in range(r.randint(0, 2))]]
     if k == 'list': return ["coll", IDX[r.choice([list, L, collections.deque])], [gen_any(r, d - 1) for _ in range(r.randint(0, 3))]]
     if k == 'tuple': return ["tup", IDX[r.choice([tuple, tuple, TS])], [gen_any(r, d - 1) for _ in range(r.randint(0, 3))]]
     if k == 'set': return ["coll", IDX[r.choice([set, frozenset])], [gen_any(r, 0) for _ in range(r.randint(0, 3))]]
@@ -440,7 +448,7 @@ def gen_any(r, d):
 
 
 SEQ_VALUE_CLASSES = {'list': [list, L], 'set': [set], 'frozenset': [frozenset], 'deque': [collections.deque],
-                     'sequence': [list, tuple, collections.deque, L, 'str'], 'iterable': [list, tuple, set, dict, 'str', 'gen', 'listiter'],
+                     'sequence': [list, tuple, collections.deque, L, 'str'], 'iterable': [list, tuple, set, dict, 'str', 'gen', 'listiter', 'map', 'filter'],
                      'collection': [list, set, tuple, 'str'], 'container': [list, set, tuple], 'abstractSet': [set, frozenset],
                      'mutableSet': [set], 'mutableSequence': [list, collections.deque]}
 MAP_VALUE_CLASSES = {'dict': [dict, collections.OrderedDict, collections.defaultdict], 'defaultDict': [collections.defaultdict],
@@ -479,6 +487,8 @@ def gen_val_for(r, t, d=3):
             return lit(r.choice(['', 'a', 'ab'])) if t[3] in (cls_term(str), ["any"]) else ["coll", IDX[list], elems]
         if c == 'gen': return ["iterator", IDX[GeneratorType], elems]
         if c == 'listiter': return ["iterator", IDX[ListIterator], elems]
+        if c == 'map': return ["iterator", IDX[map], elems]
+        if c == 'filter': return ["iterator", IDX[filter], elems]
         if c is dict: return ["mapping", IDX[dict], [[e, lit(0)] for e in elems]]
         if c is tuple: return ["tup", IDX[tuple], elems]
         return ["coll", IDX[c], elems]
